@@ -91,7 +91,7 @@ def slice_1d(ctx, n, lkind, order, sk, ek, step, bkind, via='getitem', prime=Fal
         inc = True if n < 2 else bool(labels[0] < labels[1])
         pos = box_positions(ctx, labels, start, stop, step, inc)
     if n == 0:
-        ctx.region('C02.empty-axis', True)
+        pass
     if pos is None:
         return ctx.done(r == ('exc', 'IndexError'), ctx.observe(r[1]) if r[0] == 'ok' else r[1])
     if r[0] != 'ok':
